@@ -315,7 +315,7 @@ def run_obligation(res, spec, findings, must_raise=False, check_c04_only=False):
         m = viol_model or ex.model()
         cdoc = doc.model_str(m)
         with shims.real_code():
-            ctag, cval = run_with_alarm(lambda: read_ttl(cdoc), 0.4)
+            ctag, cval = run_with_alarm(lambda: read_ttl(cdoc), 1.0)
         sym_obs, con_obs = _observed(tag, val, m), _observed(ctag, cval, None)
         if sym_obs != con_obs:
             raise HarnessError("engine/impl disagreement on %r: symbolic %r vs concrete %r" % (cdoc, sym_obs, con_obs))
@@ -508,7 +508,7 @@ def run_raw(res, name, findings=()):
             res["violations"].append(dict(what="out-of-dialect Turtle (%s) was %s instead of being rejected" % (name, "read: %r" % (concretize(val[0], m),) if tag == "OK" else "not terminating"),
                                           replay=dict(family="ttl", args=dict(doc=cdoc, expected=[], must_raise=True)), expected="an exception", observed=tag))
         with shims.real_code():
-            ctag, cval = run_with_alarm(lambda: read_ttl(cdoc), 0.4)
+            ctag, cval = run_with_alarm(lambda: read_ttl(cdoc), 1.0)
         if (ctag == "EXC") != (tag == "EXC"):
             raise HarnessError("engine/impl disagreement on %r: symbolic %s vs concrete %s" % (cdoc, tag, ctag))
         res["witnesses"] += 1
